@@ -21,11 +21,16 @@ where
 {
     trace(
         "primitive::comma_decimal",
-        take_while(1.., |c: <I as Stream>::Token| {
-            let c = c.as_char();
-            c.is_ascii_digit() || c == '-' || c == ',' || c == '.'
-        })
-        .try_map(str::parse),
+        // sign is only allowed at the beginning, otherwise it's a binary operator.
+        (
+            take_while(0..=1, |c: <I as Stream>::Token| c.as_char() == '-'),
+            take_while(1.., |c: <I as Stream>::Token| {
+                let c = c.as_char();
+                c.is_ascii_digit() || c == ',' || c == '.'
+            }),
+        )
+            .take()
+            .try_map(str::parse),
     )
     .parse_next(input)
 }
